@@ -647,7 +647,7 @@ def canInjectOption (call : Node) (name : String) : Bool :=
   match call with
   | .mk .call _ [_, .mk .list _ args, _] =>
     let isSpreadArg (a : Node) : Bool := match a with | .mk .spreadArg _ _ => true | _ => false
-    if (args.take 2).any isSpreadArg then false else
+    if args.isEmpty || (args.take 2).any isSpreadArg then false else
     match (args[1]? : Option Node) with
     | some (.mk .arg _ [.mk .object _ [.mk .list _ props]]) => !props.any (isOptionNamed · name)
     | _ => true
